@@ -4,7 +4,7 @@
            separation, margin/mass).
    Part 3: soundness of the admissibility monitor.
    Part 4: refutations for the two earlier variants of the code (F12, F16). *)
-From Coq Require Import ZArith NArith QArith Qround List Bool Arith Lia Psatz Permutation.
+From Coq Require Import ZArith NArith QArith Qround List Bool Arith Lia Lqa Permutation.
 From TP Require Import Model.Assign Model.Link Model.LinkCheck Model.Dilation Model.DilationCheck
      Model.FindLink Model.FindLinkCheck
      Proofs.BnB Proofs.Opt Proofs.Cands Proofs.Comps Proofs.Step Proofs.Labels Proofs.Dilation.
